@@ -39,7 +39,7 @@ pub struct RHistory {
     pub fragsel: u8,
     /// 0: whole menu; 1: small alignments only, plus over-aligned zero-size types (so that a
     /// zero-size datum is the most aligned of the definition); 2: wide (the first variant has
-    /// 17..=22 fields); 3: long (up to 11 variants: the blocks are replayed twice)
+    /// 17..=40 fields); 3: long (up to 11 variants: the blocks are replayed twice); 4: big values
     #[serde(default)]
     pub profile: u8,
 }
@@ -47,17 +47,21 @@ pub struct RHistory {
 /// Menu of profile 1.
 pub const LOW_ALIGN: [usize; 14] = [0, 1, 5, 11, 24, 12, 30, 23, 2, 14, 13, 14, 13, 24];
 
+/// Menu of profile 4: big values (records well above 1 KB).
+pub const BIG: [usize; 12] = [35, 31, 33, 21, 17, 36, 3, 2, 35, 36, 35, 26];
+
 pub const NAME_POOL: [&str; 12] =
     ["alpha", "beta", "gamma", "delta", "eps", "zeta", "count2", "is_ok", "the_value", "x_1", "kappa_mu", "n0"];
 
 /// Weighted menu: tokens and owned types are over-represented.
-pub const WEIGHTED: [usize; 67] = [
+pub const WEIGHTED: [usize; 76] = [
     0, 1, 2, 3, 4, 5, 6, 7, 8, 9, 10, 11, 12, 13, 14, 15, 16, 17, 18, 19, 20, 21, 22, 23, 24, 25, 26, 27, 28, 29, 30, // once each
     22, 23, 24, 25, 26, 27, 28, 22, 24, 26, 28, // tokens
     17, 18, 19, 20, 21, 17, // owned
     12, 13, 14, 5, 8, 2, 3, 0, // zero-size, odd sizes, integers
     31, 32, 33, 31, 32, 31, 32, 33, // large token, vector of tokens, large plain data
     34, 35, 34, // cache-line alignment, 320 bytes
+    36, 37, 37, 38, 39, 40, 40, 41, 41, // 1.3 KB token, floats, fn pointer, raw pointer, boxed closure, std-like user path
 ];
 
 pub fn add_req() -> impl Strategy<Value = RReq> {
@@ -95,7 +99,7 @@ pub fn rhistory() -> impl Strategy<Value = RHistory> {
         prop_oneof![1 => Just(vec![]).boxed(), 9 => prop::collection::vec(block(false), 1..6).boxed()],
         strat_strategy(),
         0u8..4,
-        prop_oneof![10 => Just(0u8), 2 => Just(1u8), 1 => Just(2u8), 1 => Just(3u8)],
+        prop_oneof![10 => Just(0u8), 2 => Just(1u8), 1 => Just(2u8), 1 => Just(3u8), 1 => Just(4u8)],
     )
         .prop_map(|(first, rest, final_strat, fragsel, profile)| {
             let mut reqs = first;
@@ -103,7 +107,7 @@ pub fn rhistory() -> impl Strategy<Value = RHistory> {
                 // widen the first variant: replay its additions until there are 17..=22 of them
                 let adds: Vec<RReq> = reqs.iter().filter(|r| matches!(r, RReq::Add { .. })).cloned().collect();
                 let close = reqs.pop();
-                let want = 17 + adds.len() % 6;
+                let want = 17 + (adds.len() * 7 + rest.len() * 5) % 24;
                 let mut k = 0usize;
                 while !adds.is_empty() && reqs.iter().filter(|r| matches!(r, RReq::Add { .. })).count() < want {
                     if let RReq::Add { menu, uninit, .. } = &adds[k % adds.len()] {
@@ -249,12 +253,19 @@ pub fn build_ext(h: &RHistory, ext: &Ext) -> Built {
     for req in &h.reqs {
         match req {
             RReq::Add { menu: m, uninit, name } => {
-                if b.get_current_data().count() >= if h.profile == 2 { 24 } else { MAX_FIELDS } {
+                if b.get_current_data().count() >= if h.profile == 2 { 42 } else { MAX_FIELDS } {
                     continue;
                 }
-                let mut idx = if h.profile == 1 { LOW_ALIGN[pick(*m, LOW_ALIGN.len())] } else { WEIGHTED[pick(*m, WEIGHTED.len())] };
+                let mut idx = match h.profile {
+                    1 => LOW_ALIGN[pick(*m, LOW_ALIGN.len())],
+                    4 => BIG[pick(*m, BIG.len())],
+                    _ => WEIGHTED[pick(*m, WEIGHTED.len())],
+                };
                 if h.fragsel & 2 == 2 && !MENU[idx].serde_ok {
                     idx = 3;
+                }
+                if h.fragsel & 1 == 1 && !MENU[idx].clone_ok {
+                    idx = 17;
                 }
                 if let Some(t) = twin_type.take() {
                     idx = t;
@@ -262,7 +273,13 @@ pub fn build_ext(h: &RHistory, ext: &Ext) -> Built {
                 if let Some(mk) = ext.markers.get(&ordinal) {
                     idx = MARKER_BASE + mk % MARKERS.len();
                 }
-                let info = if idx >= MARKER_BASE { marker_info(idx - MARKER_BASE) } else { with_menu_type!(idx, T => HostTypeResolver.type_info::<T>()) };
+                let mut info = if idx >= MARKER_BASE { marker_info(idx - MARKER_BASE) } else { with_menu_type!(idx, T => HostTypeResolver.type_info::<T>()) };
+                if idx == 40 {
+                    // The name the host resolver records for a `dyn Fn` type goes through the private module
+                    // core::ops::function and does not compile; trait objects are outside the types whose
+                    // recorded names the properties speak about, so the name is given as a user would, by override.
+                    info.name = MENU[idx].rust.to_string();
+                }
                 let is_copy = idx < MARKER_BASE && MENU[idx].copy;
                 let pooled = name.map(|n| NAME_POOL[n as usize % NAME_POOL.len()]).filter(|n| b.get_current_datum_definition_by_name(n).is_none());
                 let retake = match name {
@@ -527,6 +544,7 @@ impl<const CAP: usize> vdrive::RecGlue for CappedRecord{v}<CAP> {{
     fn clone_from_dyn(&mut self, source: &dyn vdrive::RecGlue) -> bool {{ {clone_from_body} }}
     fn ser(&self, fmt: u8) -> Option<Result<Vec<u8>, String>> {{ {ser_body} }}
     fn field_json(&self, datum: usize) -> Option<String> {{ {field_json_body} }}
+    fn json_safe(&self) -> bool {{ {json_safe_body} }}
     fn new_vec(&self) -> Box<dyn vdrive::VecGlue> {{ Box::new(VecOf{v}::<CAP>(Vec::new())) }}
     fn addr(&self) -> usize {{ self as *const Self as usize }}
     fn into_any(self: Box<Self>) -> Box<dyn std::any::Any> {{ self }}
@@ -580,6 +598,11 @@ impl<const CAP: usize> vdrive::VecGlue for VecOf{v}<CAP> {{
                 )
             } else {
                 "let _ = datum; None".to_string()
+            },
+            json_safe_body = if fs.is_empty() {
+                "true".to_string()
+            } else {
+                fs.iter().map(|x| format!("vtypes::FieldType::json_safe(self.{}())", x.name)).collect::<Vec<_>>().join(" && ")
             },
             convert_all_body = if last {
                 "let _ = form; panic!(\"glue: no next variant\")".to_string()
